@@ -25,10 +25,10 @@ def run(ctx, R):
                      'every schedule and freedom from deadlock are not decided.')
     R.not_decided = ['in-flight <= n for every schedule', 'absence of deadlock for every schedule (only lost-wake-up shapes)']
     declare(R, flow.RULES, RULES, FLOORS)
-    flow.check_propagate(ctx, R)
+    R.run(flow.check_propagate, ctx, R)
     classes = [c for c in ctx.model.nodes if c.module.name in flow.ANCHOR_MODULES_C03 + ('streamz.river',)]
-    flow.check_flat_return(ctx, R, classes)
-    flow.check_slot_returned(ctx, R, classes)
-    flow.check_bound_plumb(ctx, R)
-    flow.check_emit_convert(ctx, R)
-    flow.check_sync_transport(ctx, R)
+    R.run(flow.check_flat_return, ctx, R, classes)
+    R.run(flow.check_slot_returned, ctx, R, classes)
+    R.run(flow.check_bound_plumb, ctx, R)
+    R.run(flow.check_emit_convert, ctx, R)
+    R.run(flow.check_sync_transport, ctx, R)
